@@ -3,7 +3,7 @@
 # for mutation1/2 under <outdir>: finds the demo's package and -run pattern in notes.md, confirms the seed
 # (seedconfirm.sh) and runs the property's check against the patched worktree (seedrun_wt.sh).
 P=$1; WT=$2; OUT=$3; CHK=${4:-$P}
-cd "$(dirname "$0")/.."
+cd "$(cd "$(dirname "$0")/.." && pwd)"
 git -C "$WT" checkout -q --detach "$(git -C /repo rev-parse HEAD)" 2>/dev/null
 for i in 1 2; do
   M=$OUT/mutation$i
@@ -12,6 +12,6 @@ for i in 1 2; do
   pat=$(echo "$line" | sed -E "s/.*-run[ =]+['\"]?([A-Za-z0-9_|^\$.*()]+).*/\1/")
   pkg=$(echo "$line" | grep -oE "\./[a-z/_]+" | tail -1 | sed 's#^\./##; s#/$##')
   echo "== $P m$i: pkg=$pkg pat=$pat"
-  [ -n "$pkg" ] && lib/seedconfirm.sh $WT $M $pkg "$pat" 2>&1 | grep -E "^(demo|build)" 
+  [ -n "$pkg" ] && [ -z "${SKIP_CONFIRM:-}" ] && lib/seedconfirm.sh $WT $M $pkg "$pat" 2>&1 | grep -E "^(demo|build)" 
   lib/seedrun_wt.sh $CHK $WT $M/patch.diff 2>&1 | tail -5 | cut -c1-420
 done
